@@ -12,7 +12,8 @@ CONSTANTS MaxCalls,      \* bound on the number of public calls in a history
           NetMode,       \* "all2" | "file"
           Limits,        \* set of size / level / stack limits (Unl = -1 is always included)
           MaxM,          \* set of max_motifs_per_node values
-          Ops            \* set of op names enabled in Next
+          Ops,           \* set of op names enabled in Next
+          EmitFrom       \* Emit prints the history of idle states with at least this many calls
 
 VARIABLES S, D, fr, calls, hist, plain
 
@@ -88,7 +89,7 @@ NewCall ==
 
 Micro ==
     /\ ~fr.done
-    /\ \E b \in (IF ASeedsNeedsOracle(D, fr) THEN BOOLEAN ELSE {TRUE}) :
+    /\ \E b \in ASeedsOracleChoices(S, D, fr) :
           LET r == StepFrame(S, cfg, D, fr, b) IN D' = r[1] /\ fr' = r[2]
     /\ UNCHANGED <<S, calls, hist, cfg, plain>>
 
@@ -128,5 +129,7 @@ Inv_Seeds == (fr.done /\ AllExpanded /\ AllSeedsKnown(D, Ids(D)))
              => /\ AtLeastOnce(S, D, Ids(D))
                 /\ ((\A n \in Ids(D) : ~D.nodes[n].skipped) \/ NoMAA(S)) => SeedBijection(S, D, Ids(D))
 
+\* schedule emission: one history per distinct idle abstract state (hist is outside the VIEW)
+Emit == (fr.done /\ calls >= EmitFrom) => PrintT(ToJson([net |-> S.nt, maxm |-> cfg.maxm, hist |-> hist]))
 Constraint == TRUE
 =============================================================================
